@@ -34,10 +34,10 @@ ENCODED = [
     "menelaus.concept_drift.adwin_accuracy:ADWINAccuracy.__init__", "menelaus.concept_drift.adwin_accuracy:ADWINAccuracy.update",
 ]
 BOUNDS = {
-    "quick": "structural: N<=8 symbolic real inputs, max_buckets in {1,2}, check period in {1,2}, min window in {0,2}, "
+    "quick": "epsilon-cut lemma: symbolic sub-window sizes with log as an uninterpreted monotone function and its arguments as obligations, plus three concrete size / delta configurations with symbolic totals and variance; structural: N<=8 symbolic real inputs, max_buckets in {1,2}, check period in {1,2}, min window in {0,2}, "
              "min sub-window in {1,2}; epsilon-cut lemma: all arguments symbolic (unbounded), both bounds; ADWINAccuracy: N<=9 "
              "label pairs (all outcome sequences), symbolic constructor arguments",
-    "thorough": "structural N<=11 (13 for max_buckets=1), max_buckets<=3, period in {1,2,4}; ADWINAccuracy N<=11",
+    "thorough": "structural N=11 in general, 13 (12 for max_buckets=3) with test period 4, 10 / 8 for max_buckets 2 / 3 with period 1 and minimum sub-window 1, 13 for the max_buckets=1 long job; max_buckets<=3, period in {1,2,4}; ADWINAccuracy N<=11",
 }
 OUTSIDE = ("streams longer than N; IEEE rounding of the incremental variance (exact reals); the natural logarithm and square "
            "root in the epsilon-cut are uninterpreted (identical on both sides)")
@@ -173,14 +173,20 @@ def body_structural(ctx, N, cfg):
 # K: epsilon-cut
 
 
-def body_epsilon_cut(ctx, conservative):
+def body_epsilon_cut(ctx, conservative, concrete=None):
     from menelaus.change_detection import adwin as M
 
-    thr = ctx.int("subwindow_size_thresh")
-    n0, n1 = ctx.int("n0"), ctx.int("n1")
+    if concrete:
+        # sub-window sizes, threshold and delta concrete: the logarithms are then ordinary floating-point constants (no
+        # uninterpreted function), so that a deviation anywhere in the formula has a counterexample in the totals and the
+        # variance that replays
+        n0, n1, thr, delta = concrete
+    else:
+        thr = ctx.int("subwindow_size_thresh")
+        n0, n1 = ctx.int("n0"), ctx.int("n1")
+        delta = ctx.real("delta")
     t0, t1 = ctx.real("total0"), ctx.real("total1")
     var_sum = ctx.real("curr_variance")
-    delta = ctx.real("delta")
     ctx.assume(land(thr >= 1, n0 >= thr, n1 >= thr, delta > 0, delta <= 1, var_sum >= 0))
     W = n0 + n1
     with rebind(M, zeros=stubs.object_zeros):
@@ -295,6 +301,9 @@ def jobs(tier):
     for cons in (False, True):
         out.append(Job(f"epsilon-cut-conservative{int(cons)}", "checks.c03:body_epsilon_cut", {"conservative": cons},
                        expect=("lemma",), opts={"validate": 0}))
+        for conc in ((3, 2, 1, 0.05), (5, 7, 2, 0.002), (4, 4, 3, 0.5)):
+            out.append(Job(f"epsilon-cut-conservative{int(cons)}-n{conc[0]}.{conc[1]}-t{conc[2]}", "checks.c03:body_epsilon_cut",
+                           {"conservative": cons, "concrete": list(conc)}, expect=("lemma",), opts={"validate": 1}))
     out.append(Job("accuracy-ctor", "checks.c03:body_accuracy_ctor", {}, expect=("ctor",)))
     for labels in ("int", "label"):
         out.append(Job(f"accuracy-twin-{labels}", "checks.c03:body_accuracy_twin",
